@@ -443,14 +443,46 @@ func c03Impl(c *Ctx, im setImpl) {
 					ok, why = false, "does not range over the set with one accumulator"
 				} else {
 					acc := it.li.Phis[0]
-					for _, p := range it.li.Back {
-						v, single := appendedElem(p, it.li.LV[acc], p.Next[acc])
-						if !single || !it.isKey(v) || len(p.Conds) != 1 {
-							ok, why = false, "does not append every member"
+					if isIntegerType(acc.Type()) {
+						// make([]T, len(s)) filled at a counter: result[next] = v; next++
+						var res *Term
+						for _, p := range it.li.Exit {
+							if p.End == EndReturn && len(p.Rets) == 1 {
+								res = p.Rets[0]
+							}
 						}
-					}
-					if !isFreshAccInit(it.li.Init[acc]) {
-						ok, why = false, "does not build a fresh slice"
+						if in := it.li.Init[acc]; in == nil || !in.IsConst("0") {
+							ok, why = false, "the fill position does not start at 0"
+						}
+						if res == nil || res.Op != "mkslice" || !isLenOf(res.Args[0], paramOf(fi, 0)) {
+							ok, why = false, "the result is not a fresh slice of len(set)"
+						}
+						for _, p := range it.li.Back {
+							stores := 0
+							for i := p.LoopAt[it.li.Hdr]; i < len(p.Events); i++ {
+								e := &p.Events[i]
+								if e.Kind == "store" && e.Addr.Op == "iaddr" && res != nil && e.Addr.Args[0].Key() == res.Key() {
+									if ToPoly(e.Addr.Args[1]).Equal(ToPoly(it.li.LV[acc])) && it.isKey(e.Val) {
+										stores++
+									} else {
+										stores = -99
+									}
+								}
+							}
+							if stores != 1 || len(p.Conds) != 1 || !ToPoly(p.Next[acc]).Equal(ToPoly(it.li.LV[acc]).Add(polyConst(1), 1)) {
+								ok, why = false, "does not store every member at the next position"
+							}
+						}
+					} else {
+						for _, p := range it.li.Back {
+							v, single := appendedElem(p, it.li.LV[acc], p.Next[acc])
+							if !single || !it.isKey(v) || len(p.Conds) != 1 {
+								ok, why = false, "does not append every member"
+							}
+						}
+						if !isFreshAccInit(it.li.Init[acc]) {
+							ok, why = false, "does not build a fresh slice"
+						}
 					}
 				}
 			}
@@ -517,6 +549,13 @@ func c03Passes(c *Ctx, fi *FuncInfo, ps []*Path, which func(*FuncInfo, *Term) st
 					}
 					decSet = w
 					dec = map[bool]string{true: "t", false: "f"}[p]
+				}
+				// the comma-ok form on a map-backed operand: _, ok := s[v]
+				if t.Op == "extract" && t.N == 1 && t.Args[0].Op == "lookup" && len(t.Args[0].Args) == 2 && elem(t.Args[0].Args[1]) {
+					if w := which(fi, t.Args[0].Args[0]); w != "" {
+						decSet = w
+						dec = map[bool]string{true: "t", false: "f"}[p]
+					}
 				}
 			}
 			adds := 0
@@ -670,7 +709,7 @@ func c03Ctors(c *Ctx) {
 				ok, why = false, "expected one loop over the argument"
 			} else {
 				it := c14IterOf(loops[0])
-				if it == nil || !isParam(it.over, 0) || !it.full {
+				if it == nil || !isParam(it.over, 0) || !(it.full || it.fullRev) { // a set does not care about the order of insertion
 					ok, why = false, "does not iterate over the whole argument"
 				} else {
 					var set *Term
@@ -835,6 +874,9 @@ func c03StringFormat(c *Ctx, im setImpl) {
 		for _, q := range cp.Paths {
 			for _, cd := range q.Conds {
 				t := stripNotTerm(cd.T)
+				if r := cd.Rel(); r.B != nil && r.B.IsConst("0") && r.A.Op == "load" {
+					t = r.A
+				}
 				if t.Op == "load" && len(t.Args) == 1 && t.Args[0].Op == "alloc" {
 					flag = t.Args[0]
 				}
@@ -884,6 +926,9 @@ func c03StringFormat(c *Ctx, im setImpl) {
 					continue
 				}
 				t := stripNotTerm(cd.T)
+				if r := cd.Rel(); r.B != nil && r.B.IsConst("0") && r.A.Op == "loopvar" {
+					t = r.A // a counter compared with 0
+				}
 				for phi, lv := range li.LV {
 					if t.Key() == lv.Key() {
 						fphi, flag = phi, lv
@@ -915,6 +960,51 @@ func c03StringFormat(c *Ctx, im setImpl) {
 		}
 		if fphi != nil {
 			init = li.Init[fphi]
+		}
+	}
+	if flag != nil && init != nil && init.IsConst("0") && isIntegerType(flag.Typ) {
+		// a counter of members written so far: first <=> counter == 0; every step adds one
+		good := len(steps) == 2
+		for _, st := range steps {
+			if len(st.conds) != 1 {
+				good = false
+				continue
+			}
+			r := st.conds[0].Rel()
+			fl := flag
+			if im.ptr {
+				fl = &Term{Op: "load", Args: []*Term{flag}}
+			}
+			if r.B == nil || !r.B.IsConst("0") || !(r.A.Key() == fl.Key() || (r.A.Op == "load" && im.ptr && r.A.Args[0].Key() == flag.Key())) {
+				good = false
+				continue
+			}
+			first := r.Op == "==" || r.Op == "<="
+			if !(first || r.Op == "!=" || r.Op == ">") {
+				good = false
+			}
+			if st.next == nil || !ToPoly(st.next).Equal(ToPoly(r.A).Add(polyConst(1), 1)) {
+				good = false
+			}
+			seps, prints := 0, 0
+			for i := range st.events {
+				e := &st.events[i]
+				switch {
+				case e.Kind == "call" && strings.HasPrefix(e.Name, "strings.(*Builder).Write") && len(e.Args) == 2 && isConstLike(e.Args[1]):
+					seps++
+				case e.Kind == "call" && (e.Name == "fmt.Fprint" || e.Name == "fmt.Fprintf"):
+					prints++
+				case e.Kind == "call":
+					good = false
+				}
+			}
+			if prints != 1 || (first && seps != 0) || (!first && seps != 1) {
+				good = false
+			}
+		}
+		if good {
+			R.Held(rule, fi.Name, "step", c.pos(fi), "each member printed once; separator exactly before every member but the first, decided by a count of members written")
+			return
 		}
 	}
 	if flag == nil || init == nil || !(init.IsConst("false") || init.IsConst("true")) {
